@@ -353,14 +353,14 @@ mod v_iface_ingress6 {
         icmp6_case(128, true);
     }
 
-    // @harness props=C11,C10,C03 cfg=KI6i tier=q to=1500 mem=12 unwind=20 opts=nomem covers=2 funcs=InterfaceInner::process_ip;InterfaceInner::process_ipv6;InterfaceInner::process_icmpv6;InterfaceInner::icmpv6_reply bounds=raw-IP_medium;_own_fe80::1_and_2001:db8::1;_source_with_4_and_destination_with_9_symbolic_octets_(all_address_classes);_ICMPv6_echo_reply_with_4_data_bytes
+    // @harness props=C11,C10,C03:t cfg=KI6i tier=q to=1500 mem=12 unwind=20 opts=nomem covers=2 funcs=InterfaceInner::process_ip;InterfaceInner::process_ipv6;InterfaceInner::process_icmpv6;InterfaceInner::icmpv6_reply bounds=raw-IP_medium;_own_fe80::1_and_2001:db8::1;_source_with_4_and_destination_with_9_symbolic_octets_(all_address_classes);_ICMPv6_echo_reply_with_4_data_bytes
     #[cfg(feature = "socket-icmp")]
     #[kani::proof]
     pub(crate) fn ipv6_addr_icmp_echo_reply() {
         icmp6_case(129, false);
     }
 
-    // @harness props=C11,C10,C03 cfg=KI6i tier=q to=1500 mem=12 unwind=20 opts=nomem covers=2 funcs=InterfaceInner::process_ip;InterfaceInner::process_ipv6;InterfaceInner::process_icmpv6;InterfaceInner::icmpv6_reply bounds=raw-IP_medium;_own_fe80::1_and_2001:db8::1;_source_with_4_and_destination_with_9_symbolic_octets_(all_address_classes);_ICMPv6_destination_unreachable_(type_1)_with_any_code_and_8_following_octets
+    // @harness props=C11,C10,C03:t cfg=KI6i tier=q to=1500 mem=12 unwind=20 opts=nomem covers=2 funcs=InterfaceInner::process_ip;InterfaceInner::process_ipv6;InterfaceInner::process_icmpv6;InterfaceInner::icmpv6_reply bounds=raw-IP_medium;_own_fe80::1_and_2001:db8::1;_source_with_4_and_destination_with_9_symbolic_octets_(all_address_classes);_ICMPv6_destination_unreachable_(type_1)_with_any_code_and_8_following_octets
     #[cfg(feature = "socket-icmp")]
     #[kani::proof]
     pub(crate) fn ipv6_addr_icmp_dst_unreachable() {
